@@ -112,6 +112,11 @@ def sig_extra(e, v):
                 if a['src'] == row['c'] and (a['src'] == a['tgt'] or same_kind_twice):
                     if any(row['v'].get(k, 'unset') not in ('unset', 'u:0', 's:') for k in a['skeys']):
                         return {'reflexive_ref': True}
+            for a in sch['assocs']:
+                # a non-reflexive association whose two ends carry different phrases
+                if a['src'] == row['c'] and a['src'] != a['tgt'] and a['sphrase'] != a['tphrase']:
+                    if any(row['v'].get(k, 'unset') not in ('unset', 'u:0', 's:') for k in a['skeys']):
+                        return {'reflexive_ref': False, 'one_sided_phrase': True}
     return {'reflexive_ref': False}
 
 
